@@ -12,7 +12,7 @@ import (
 //
 //	refmap_ops       every statement of pkg/importer that touches the in-progress map `refMap` of the Swagger / OpenAPI
 //	                 importer, per function in source order: where it is created (with the innermost guard), where an entry
-//	                 is set (key, value, inside a closure?), which closure is deferred with which argument, where it is read
+//	                 is set (key, value, inside a closure?), which closure is deferred / called at once with which argument, where it is read
 //	rec_skeleton     for loadTypeSchema / buildField / typeNameFromSchemaRef / isCircular / typeAliasForSchema (Swagger) and
 //	                 loadSchemaTypes / findType / makeType / makeComplexType / makeExtendedType / makeSimpleType /
 //	                 getAllElements (XSD): the statements that mention a marker or a recursive call, with the control
@@ -26,8 +26,8 @@ func init() { register("ImporterRec", importerRec) }
 var imrSwaggerFuncs = []string{"OpenAPI3Importer.loadTypeSchema", "OpenAPI3Importer.buildField", "OpenAPI3Importer.typeNameFromSchemaRef",
 	"OpenAPI3Importer.isCircular", "OpenAPI3Importer.typeAliasForSchema"}
 var imrSwaggerWords = []string{"refMap", "isCircular", "setDefined", "loadTypeSchema", "buildField", "typeNameFromSchemaRef", "nameStack", "pushName"}
-var imrXsdFuncs = []string{"loadSchemaTypes", "findType", "makeType", "makeComplexType", "makeExtendedType", "makeSimpleType", "getAllElements"}
-var imrXsdWords = []string{"knownTypes.Add", "types.Add", "knownTypes.Find", "findType", "makeType", "makeComplexType", "makeExtendedType", "makeSimpleType", "getAllElements", "createChildItem"}
+var imrXsdFuncs = []string{"loadSchemaTypes", "findType", "makeType", "makeComplexType", "makeExtendedType", "makeSimpleType", "getAllElements", "getAllElementsBelow"}
+var imrXsdWords = []string{"knownTypes.Add", "types.Add", "knownTypes.Find", "findType", "makeType", "makeComplexType", "makeExtendedType", "makeSimpleType", "getAllElements", "createChildItem", "onPath"}
 
 func imrMentions(text string, words []string) bool {
 	for _, w := range words {
@@ -181,6 +181,12 @@ func importerRec(repo string) (string, error) {
 			case *ast.DeferStmt:
 				if id, ok := x.Call.Fun.(*ast.Ident); ok && id.Name == "setDefined" && len(x.Call.Args) == 1 {
 					ops = append(ops, fmt.Sprintf("  (%s, RDeferDone %s)", ksStr(name), ksStr(ksText(imp.fset, x.Call.Args[0]))))
+				}
+			case *ast.ExprStmt:
+				if c, ok := x.X.(*ast.CallExpr); ok {
+					if id, ok := c.Fun.(*ast.Ident); ok && id.Name == "setDefined" && len(c.Args) == 1 {
+						ops = append(ops, fmt.Sprintf("  (%s, RDoneNow %s)", ksStr(name), ksStr(ksText(imp.fset, c.Args[0]))))
+					}
 				}
 			case *ast.BinaryExpr:
 				if (isRefMap(x.X) && isIdent(x.Y, "nil")) || (isRefMap(x.Y) && isIdent(x.X, "nil")) {
